@@ -306,7 +306,7 @@ def check_movechunks(ctx, prog):
     configs = 0
     bad = None
     U = MOVE_UNIT
-    for nprocs in (1, 2, 3, 4, 5):
+    for nprocs in ((1, 2, 3, 4, 5, 6, 7, 8, 13) if ctx.tier == "thorough" else (1, 2, 3, 4, 5)):
         sizes = sorted({1, 2, 3, 5, 7, 40, 48, 144, nprocs, nprocs + 1, 2 * nprocs - 1, 4 * nprocs + 3,
                         U * nprocs, U * nprocs + 1, U * nprocs - 1, 2 * U * nprocs + 5, 2 * U * nprocs + U + 3,
                         3 * U * nprocs, U + 1, U * (nprocs - 1) + 17 if nprocs > 1 else U + 17})
@@ -330,6 +330,7 @@ def check_movechunks(ctx, prog):
     else:
         ctx.ok("R8.movechunks", inst, "%d configurations (1..5 processes, sizes around multiples of nprocs and of the 64 MiB "
                "move unit): chunks tile the block, rounds go tail first, no destination overlaps an unmoved source" % configs)
+    ctx.notes.append("R8.movechunks grid: %d configurations" % configs)
     ctx.notes.append("R8.movechunks / R8.moveseq are bounded evaluations of integer slices (not exhaustive)")
 
 
